@@ -186,3 +186,25 @@ def value_atom(fn_node, subject, value, sets=None, other=None):
                 return (value is None) == isinstance(op, _ast.Is)
         return other(text, node) if other else None
     return atom
+
+
+def reaching_defs(g, at, name):
+    """CFG nodes whose statement binds the local `name` (plain or tuple assignment) and from which `at` can be reached without passing another
+    binding of `name`: the definitions that can supply the value `name` has at `at`"""
+    import ast as _ast
+    defs = []
+    for n in g.nodes:
+        if n.kind == 'stmt' and isinstance(n.ast, (_ast.Assign, _ast.AnnAssign)):
+            if any(isinstance(t, _ast.Name) and t.id == name for t, _v in assign_pairs(n.ast)): defs.append(n)
+    out = []
+    for d in defs:
+        others = [x for x in defs if x is not d]
+        if at.id in g.reach([d], avoid=others, include_src=False): out.append(d)
+    return out
+
+
+def value_of_def(defnode, name):
+    """the expression assigned to `name` by the assignment at CFG node `defnode` (None when it cannot be paired)"""
+    for t, v in assign_pairs(defnode.ast):
+        if getattr(t, 'id', None) == name: return v
+    return None
